@@ -312,6 +312,259 @@ func randomGame(c *Ctx) *genGame {
 	return g
 }
 
+// endingMoves returns the legal moves that end the game.
+func endingMoves(p *tak.Position) []tak.Move {
+	var out []tak.Move
+	for _, m := range legalMoves(p) {
+		if n, err := p.Move(m); err == nil {
+			if over, _ := n.GameOver(); over {
+				out = append(out, m)
+			}
+		}
+	}
+	return out
+}
+
+// nearEnd plays a biased game from the empty board and stops at a position that is not over but
+// from which one legal move ends the game (road, full board or reserve exhaustion).
+func nearEnd(r *RNG, size int) *tak.Position {
+	for {
+		p := tak.New(tak.Config{Size: size})
+		for ply := 0; ply < 6*size*size; ply++ {
+			if over, _ := p.GameOver(); over {
+				break
+			}
+			ms := legalMoves(p)
+			if len(ms) == 0 {
+				break
+			}
+			if ply >= 2 {
+				if _, ok := winningMove(p, ms); ok && r.Chance(1, 3) {
+					return p
+				}
+			}
+			m := pickBiased(r, p, ms)
+			for k := 0; k < 4; k++ { // prefer to play on
+				if n, err := p.Move(m); err == nil {
+					if over, _ := n.GameOver(); !over {
+						break
+					}
+				}
+				m = ms[r.Intn(len(ms))]
+			}
+			n, err := p.Move(m)
+			if err != nil {
+				break
+			}
+			p = n
+		}
+	}
+}
+
+// opsForMoves numbers the moves from the position's ply; endAt >= 0: a Result op right after that move (sometimes).
+func opsForMoves(c *Ctx, g *genGame, pos *tak.Position, moves []tak.Move, endAt int) {
+	r := c.R
+	style := r.Intn(4) // 0,1 standard; 2 every ply; 3 none
+	ply := pos.MoveNumber()
+	for i, m := range moves {
+		if style <= 1 && (i == 0 || ply%2 == 0) || style == 2 {
+			n := ply/2 + 1
+			g.p.Ops = append(g.p.Ops, &ptn.MoveNumber{Number: n})
+			if n > g.maxNum {
+				g.maxNum = n
+			}
+		}
+		g.p.Ops = append(g.p.Ops, &ptn.Move{Move: m})
+		if i == endAt && r.Chance(1, 3) {
+			g.p.Ops = append(g.p.Ops, &ptn.Result{Result: resultPool[r.Intn(len(resultPool))]})
+		}
+		if r.Chance(1, 12) {
+			g.p.Ops = append(g.p.Ops, &ptn.Comment{Comment: "x"})
+		}
+		ply++
+	}
+	if r.Chance(1, 6) {
+		g.p.Ops = append(g.p.Ops, &ptn.MoveNumber{Number: ply/2 + 1})
+	}
+}
+
+// continuation: what a record holds after the game-ending move: moves that Position.Move would still
+// accept (it does not look at the end of the game), or moves it rejects.
+func continuation(r *RNG, p *tak.Position) []tak.Move {
+	var out []tak.Move
+	cur := p
+	for k := 1 + r.Intn(4); k > 0; k-- {
+		if r.Chance(1, 4) {
+			bad := illegalMoveAt(r, cur)
+			if formattable(bad) {
+				out = append(out, bad)
+				continue
+			}
+		}
+		ms := legalMoves(cur)
+		if len(ms) == 0 {
+			ms = cur.AllMoves(nil)
+		}
+		if len(ms) == 0 {
+			break
+		}
+		m := ms[r.Intn(len(ms))]
+		out = append(out, m)
+		if n, err := cur.Move(m); err == nil {
+			cur = n
+		}
+	}
+	return out
+}
+
+// puzzleGame: a [TPS] start one move from the end of the game whose move number is unrelated to the number
+// of stones on the board (1..3 as in "white to move and win" puzzles, the true one, or a large one), either
+// colour to move; the record plays (optionally after a few quiet moves) a game-ending move and then CONTINUES.
+func puzzleGame(c *Ctx) *genGame {
+	r := c.R
+	g := &genGame{p: &ptn.PTN{}, safe: true}
+	feat := func(s string) { g.features = append(g.features, s) }
+	size := []int{3, 3, 4, 4, 5, 5, 6, 7, 8}[r.Intn(9)]
+	base := nearEnd(r, size)
+	f := strings.Fields(ptn.FormatTPS(base))
+	var num int
+	switch x := r.Intn(10); {
+	case x < 5:
+		num = 1 + r.Intn(3)
+		feat("puzzle.num=1..3")
+	case x < 7:
+		num = 1 + r.Intn(size+1)
+		feat("puzzle.num<=size+1")
+	case x < 8:
+		num = base.MoveNumber()/2 + 1
+		feat("puzzle.num=true")
+	default:
+		num = []int{50, 1000, 1 << 20, 1 << 40}[r.Intn(4)]
+		feat("puzzle.num=large")
+	}
+	if r.Chance(1, 4) { // the other colour to move
+		if f[1] == "1" {
+			f[1] = "2"
+		} else {
+			f[1] = "1"
+		}
+		feat("puzzle.colour-swapped")
+	}
+	tps := fmt.Sprintf("%s %s %d", f[0], f[1], num)
+	pos, err := ptn.ParseTPS(tps)
+	if err != nil {
+		panic("puzzle TPS rejected: " + tps)
+	}
+	feat("puzzle")
+	feat("size" + strconv.Itoa(size))
+	if pos.ToMove() == tak.Black {
+		feat("puzzle.black-to-move")
+	}
+	g.p.Tags = []ptn.Tag{{Name: "Size", Value: strconv.Itoa(size)}, {Name: "TPS", Value: tps}}
+	if r.Chance(1, 2) {
+		g.p.Tags[0], g.p.Tags[1] = g.p.Tags[1], g.p.Tags[0]
+	}
+	var moves []tak.Move
+	cur := pos
+	for k := r.Intn(3); k > 0; k-- { // quiet moves first
+		var quiet []tak.Move
+		for _, m := range legalMoves(cur) {
+			if n, err := cur.Move(m); err == nil {
+				if over, _ := n.GameOver(); !over && len(endingMoves(n)) > 0 {
+					quiet = append(quiet, m)
+					if len(quiet) > 6 {
+						break
+					}
+				}
+			}
+		}
+		if len(quiet) == 0 {
+			break
+		}
+		m := quiet[r.Intn(len(quiet))]
+		n, _ := cur.Move(m)
+		moves = append(moves, m)
+		cur = n
+	}
+	endAt := -1
+	if over, _ := cur.GameOver(); over {
+		feat("puzzle.start-already-over") // e.g. after the colour swap the board is full
+	} else if ends := endingMoves(cur); len(ends) > 0 {
+		m := ends[r.Intn(len(ends))]
+		n, _ := cur.Move(m)
+		moves = append(moves, m)
+		endAt = len(moves) - 1
+		cur = n
+		if wd := cur.WinDetails(); wd.Reason == tak.RoadWin {
+			feat("puzzle.ends-by-road")
+		} else {
+			feat("puzzle.ends-by-flats")
+		}
+		if cur.MoveNumber() < 2*size-1 {
+			feat("puzzle.ends-before-ply-2size-1")
+		}
+	} else {
+		feat("puzzle.no-ending-move") // opening rules (ply < 2) changed what the moves do
+	}
+	if r.Chance(5, 6) {
+		ext := continuation(r, cur)
+		moves = append(moves, ext...)
+		if endAt >= 0 && len(ext) > 0 {
+			feat("puzzle.continues-after-end")
+		}
+	}
+	opsForMoves(c, g, pos, moves, endAt)
+	g.nmoves = len(moves)
+	return g
+}
+
+// earliestEndGame: from the empty board White completes a straight road with his size-th stone, i.e. the game
+// ends exactly at ply 2*size-1 (no game can end earlier); the record continues after it.
+func earliestEndGame(c *Ctx) *genGame {
+	r := c.R
+	g := &genGame{p: &ptn.PTN{}, safe: true}
+	size := 3 + r.Intn(6)
+	g.features = append(g.features, "earliest-end", "size"+strconv.Itoa(size))
+	g.p.Tags = []ptn.Tag{{Name: "Size", Value: strconv.Itoa(size)}}
+	col := r.Chance(1, 2) // road along a column instead of a row
+	sq := func(a, b int) tak.Move {
+		if col {
+			a, b = b, a
+		}
+		return tak.Move{X: int8(a), Y: int8(b), Type: tak.PlaceFlat}
+	}
+	pos := tak.New(tak.Config{Size: size})
+	moves := []tak.Move{sq(size-1, size-1), sq(0, 0)} // ply 0: Black's stone far away; ply 1: White's first road stone
+	for k := 1; k < size; k++ {
+		moves = append(moves, sq(k, 0)) // White extends the road
+		if k < size-1 {
+			moves = append(moves, sq(k-1, size-1)) // Black elsewhere (never a road: one square stays open)
+		}
+	}
+	cur := pos
+	for _, m := range moves {
+		n, err := cur.Move(m)
+		if err != nil {
+			panic("earliestEndGame: illegal construction")
+		}
+		cur = n
+	}
+	if over, _ := cur.GameOver(); !over || cur.MoveNumber() != 2*size-1 {
+		panic("earliestEndGame: not over at ply 2*size-1")
+	}
+	endAt := len(moves) - 1
+	if r.Chance(1, 5) { // stop one move short: not over
+		moves = moves[:len(moves)-1]
+		endAt = -1
+		g.features = append(g.features, "earliest-end.one-short")
+	} else {
+		moves = append(moves, continuation(r, cur)...)
+	}
+	opsForMoves(c, g, pos, moves, endAt)
+	g.nmoves = len(moves)
+	return g
+}
+
 func samePTN(a, b *ptn.PTN) bool {
 	if len(a.Tags) != len(b.Tags) || len(a.Ops) != len(b.Ops) {
 		return false
@@ -335,18 +588,43 @@ func emitQueries(c *Ctx, hx string, p *ptn.PTN, maxNum int) {
 	tr := tpsRes(p)
 	c.Emit("ptninit " + hx + " " + tr)
 	c.Emit("ptniter " + hx + " " + tr)
-	if maxNum > 200 {
-		maxNum = 200
+	// the markers that occur in the file (whatever their size), their neighbours, and 0 / 1 / 2
+	seen := map[int]bool{}
+	var marks []int
+	mx := 0
+	for _, op := range p.Ops {
+		if mn, ok := op.(*ptn.MoveNumber); ok && mn.Number > 0 && !seen[mn.Number] {
+			seen[mn.Number] = true
+			marks = append(marks, mn.Number)
+			if mn.Number > mx {
+				mx = mn.Number
+			}
+		}
 	}
-	var ns []int
-	if maxNum <= 8 || c.Thorough() {
-		for n := 0; n <= maxNum+2; n++ {
-			ns = append(ns, n)
+	if maxNum > mx && maxNum <= 200 {
+		mx = maxNum
+	}
+	cand := []int{0, 1, 2, mx - 1, mx, mx + 1, mx + 2}
+	if len(marks) <= 8 || c.Thorough() {
+		for _, m := range marks {
+			cand = append(cand, m, m+1)
+		}
+		if mx <= 8 {
+			for n := 3; n < mx; n++ {
+				cand = append(cand, n)
+			}
 		}
 	} else {
-		ns = []int{0, 1, 2, maxNum - 1, maxNum, maxNum + 1, maxNum + 2}
 		for k := 0; k < 3; k++ {
-			ns = append(ns, 1+c.R.Intn(maxNum))
+			cand = append(cand, marks[c.R.Intn(len(marks))])
+		}
+	}
+	var ns []int
+	dup := map[int]bool{}
+	for _, n := range cand {
+		if n >= 0 && !dup[n] {
+			dup[n] = true
+			ns = append(ns, n)
 		}
 	}
 	for _, n := range ns {
@@ -481,11 +759,17 @@ func testdataFiles() [][]byte {
 }
 
 func genC12(c *Ctx) {
-	n := c.Scale(2000, 120000) // thorough: 200k games took 37 min wall on a loaded 16-core box (16.3M ops); 120k keeps it under 30
+	n := c.Scale(2000, 100000) // thorough: 200k plain games took 37 min wall on a loaded 16-core box; 100k with the puzzle games stays under 30
 	for k := 0; k < n; k++ {
 		emitGame(c, randomGame(c))
 		if k%4 == 0 {
 			emitStructured(c)
+		}
+		if k%3 == 0 {
+			emitGame(c, puzzleGame(c))
+		}
+		if k%12 == 0 {
+			emitGame(c, earliestEndGame(c))
 		}
 		if k%16 == 0 {
 			// AddMoves on a fresh PTN
